@@ -22,6 +22,9 @@ pub enum Silence {
     BeforeResponse(u32),
     /// the peer answers request k and nothing after it
     AfterResponse(u32),
+    /// the peer answers request k, then black-holes: it neither answers nor READS any more (finite
+    /// transport buffer, so an upload in progress stalls inside its write)
+    BlackholeAfter(u32),
 }
 
 #[derive(Clone, Debug)]
@@ -51,7 +54,9 @@ pub fn make(p: Params) -> ScenarioFn {
             let mut out = Outcome::default();
             let t0 = tokio::time::Instant::now();
             let d = Duration::from_millis(p.delay_ms);
-            let mut link = peer_link(PipeCfg::new("s2c").latency(d), PipeCfg::new("c2s").latency(d));
+            let blackhole = matches!(p.silence, Silence::BlackholeAfter(_));
+            let c2s_cfg = if blackhole { PipeCfg::new("c2s").latency(d).capacity(300) } else { PipeCfg::new("c2s").latency(d) };
+            let mut link = peer_link(PipeCfg::new("s2c").latency(d), c2s_cfg);
             let hb = SessionHeartbeatConfig { interval: Duration::from_millis(p.interval_ms), timeout: Duration::from_millis(p.timeout_ms) };
             let sess = match start_client_session(link.sess_r, link.sess_w, padding(STOP0), Some(hb), 0).await {
                 Ok(s) => s,
@@ -91,12 +96,18 @@ pub fn make(p: Params) -> ScenarioFn {
                                 Silence::Never => true,
                                 Silence::FromStart => false,
                                 Silence::BeforeResponse(k) => reqs < k,
-                                Silence::AfterResponse(k) => reqs <= k,
+                                Silence::AfterResponse(k) | Silence::BlackholeAfter(k) => reqs <= k,
                             };
                             if answer {
                                 link.peer.send(HEART_RESP, f.id, b"");
                                 // the answer reaches the client one delay later
                                 *la.lock().unwrap() = Some(tokio::time::Instant::now().duration_since(t0).as_millis() as u64 + delay);
+                            }
+                            if let Silence::BlackholeAfter(k) = silence
+                                && reqs >= k
+                            {
+                                // stop reading: keep the link object alive, consume nothing more
+                                std::future::pending::<()>().await;
                             }
                         }
                         _ => {}
@@ -126,7 +137,8 @@ pub fn make(p: Params) -> ScenarioFn {
                 Some(tokio::spawn(async move {
                     loop {
                         tokio::time::sleep(every).await;
-                        if s.write_data_frame(id, Bytes::from_static(b"tick")).await.is_err() {
+                        let chunk = if blackhole { Bytes::from(vec![b'u'; 200]) } else { Bytes::from_static(b"tick") };
+                        if s.write_data_frame(id, chunk).await.is_err() {
                             return;
                         }
                     }
@@ -207,11 +219,28 @@ pub fn all_params(tier: Tier) -> Vec<(Params, usize)> {
         silences.push(Silence::AfterResponse(k));
     }
     let mut v = vec![];
+    // black-holing peers (stop answering AND reading) with an upload in progress, for T >= I
+    for (i, t) in [(1u64, 1u64), (2, 3), (2, 5), (5, 20)] {
+        for k in 1..=2u32 {
+            v.push((Params { interval_ms: i * 1000, timeout_ms: t * 1000, delay_ms: 1, silence: Silence::BlackholeAfter(k), traffic: true }, if thorough { 1 } else { 0 }));
+        }
+    }
     for i in &intervals {
         for t in &timeouts {
             let (i_ms, t_ms) = (i * 1000, t * 1000);
             // round trips 0, 2 ms, T/2, T - 2 ms  (one-way delay = half)
             let mut delays: Vec<u64> = vec![0, 1, t_ms / 4, t_ms / 2 - 1];
+            // round trips around multiples of the interval (answers arriving just before / at / after a tick),
+            // as long as they stay below the timeout
+            for m in 1..=3u64 {
+                for eps in [-2i64, 0, 2] {
+                    let rtt = (m * i_ms) as i64 + eps;
+                    if rtt > 0 && (rtt as u64) < t_ms {
+                        delays.push(rtt as u64 / 2);
+                    }
+                }
+            }
+            delays.sort_unstable();
             delays.dedup();
             for d in delays {
                 for s in &silences {
